@@ -88,11 +88,31 @@ impl LoopCampaign {
     let mut t = 0u64;
     let mut kbd = vec![]; let mut tab = vec![];
     let mut tab_state = false;
+    let counted_tab = marathon && has_tablet && crate::rng::mix(seed, 0xc0de7) % 2 == 0;
+    let round_counts: Vec<usize> = if counted_tab { let c = [64usize, 100, 127, 128, 129, 255, 256, 257, 384, 511, 512, 513]; let mut r3 = Rng::new(crate::rng::mix(seed, 0xc0de8)); (0..3).map(|_| r3.pick(&c)).collect() } else { vec![] };
+    // one run in six has long pauses
+    let idle_prone = crate::rng::mix(seed, 0x1d1e0) % 6 == 0;
+    let idle_cap_us: u64 = layout.mappings.iter().filter_map(|m| if let Repeat::Special { delay_ms, interval_ms, .. } = &m.repeat { Some((*delay_ms).min(*interval_ms).max(0) as u64 * 150_000) } else { None }).min().unwrap_or(u64::MAX);
+    let mut idle_gaps = 0u64; let _ = &idle_gaps;
     for op in ops {
       let e = match op { Op::Ev(e) => e, _ => continue };
-      let gap = if bursty && !rng.chance(1, 12) { 0 } else { match rng.below(10) { 0..=2 => 0, 3..=4 => rng.below(5000) as u64, 5..=7 => 20_000 + rng.below(80_000) as u64, _ => 150_000 + rng.below(400_000) as u64 } };
+      let gap = if idle_prone && rng.chance(1, 8) && idle_cap_us >= 1_000_000 {
+        // a long pause (seconds to hours) in the middle of a history, with whatever is held staying
+        // held: simulated time is free. With a repeat timer in the layout the pause is bounded by
+        // 150 of its shortest periods, so that the run stays within the trace cap
+        idle_gaps += 1;
+        let g = match rng.below(6) { 0 => 3_000_000 + rng.below(12_000_000) as u64, 1 => 10_000_000 + rng.below(2_000_000) as u64, 2 => 60_000_000 + rng.below(60_000_000) as u64, 3 => 600_000_000, 4 => 3_600_000_000 + rng.below(1000) as u64, _ => 7_200_000_000 + rng.below(86_400_000_000) as u64 };
+        g.min(idle_cap_us)
+      } else if bursty && !rng.chance(1, 12) { 0 } else { match rng.below(10) { 0..=2 => 0, 3..=4 => rng.below(5000) as u64, 5..=7 => 20_000 + rng.below(80_000) as u64, _ => 150_000 + rng.below(400_000) as u64 } };
       t += gap;
-      if has_tablet && rng.chance(1, tab_rate) {
+      if counted_tab {
+        // marathons: half of them have their tablet changes after round numbers of key events only
+        if round_counts.contains(&(kbd.len())) || (tab_state && rng.chance(1, 6)) {
+          tab_state = !tab_state;
+          let tt = tab.last().map(|(pt, _): &(u64, bool)| t.max(*pt)).unwrap_or(t);
+          tab.push((tt, tab_state));
+        }
+      } else if has_tablet && rng.chance(1, tab_rate) {
         // mostly alternate, sometimes repeat the same state
         let on = if rng.chance(1, 5) { tab_state } else { !tab_state };
         tab_state = on;
@@ -307,6 +327,7 @@ impl Campaign for LoopCampaign {
     }
     let mut obs = ObsB::default();
     let acc = &mut *ctx.acc;
+    acc.probe_n("pauses_of_three_seconds_or_more_between_key_events", case.kbd.windows(2).filter(|w| w[1].0 - w[0].0 >= 3_000_000).count() as u64);
     let mut tally = |o: &Outcome, acc: &mut Acc| {
       let s = &o.stats;
       acc.fault("signal_interrupts_poll", s.eintr); acc.fault("spurious_timeout_idle", s.spurious_timeout); acc.fault("spurious_readiness", s.spurious_ready);
